@@ -33,6 +33,16 @@ PairVerdict(c) ==
   ELSE IF c.o1 # c.o2 /\ \A i \in 1..Len(t1) : t1[i] = t2[i] THEN "content-lost"
   ELSE IF c.o1 = c.o2 THEN "content-lost"
   ELSE "ok"
+\* kind "same": two outputs that must mean the same (C19: canonical spelling vs re-laid-out / re-cased spelling):
+\* equal token sequences, where number and word tokens are compared case-insensitively and string-literal and
+\* quoted-identifier tokens exactly
+Fold(ts) == [i \in 1..Len(ts) |-> IF ts[i][1] = "NUM" THEN <<"NUM", UpperSeq(ts[i][2])>> ELSE ts[i]]
+SameVerdict(c) ==
+  LET r1 == SqlLexRun(c.o1)  r2 == SqlLexRun(c.o2) IN
+  IF r1.mode # "N" \/ r2.mode # "N" THEN "unterminated"
+  ELSE IF Fold(r1.toks) = Fold(r2.toks) THEN "ok"
+  ELSE IF Skeleton(r1.toks) = Skeleton(r2.toks) THEN "literal-spelling-differs" ELSE "structure-differs"
 Verdict == (lo = hi /\ Len(Cases) > 0) =>
-              PrintT(ToJson([k |-> "verdict", id |-> Cases[lo].id, v |-> PairVerdict(Cases[lo])]))
+              PrintT(ToJson([k |-> "verdict", id |-> Cases[lo].id,
+                             v |-> IF Cases[lo].kind = "same" THEN SameVerdict(Cases[lo]) ELSE PairVerdict(Cases[lo])]))
 =============================================================================
